@@ -1213,9 +1213,12 @@ fn c16_eval(sc: &str, case: &AnyCase, st: &mut RunStats, _t: Tier) -> Vec<Violat
 // ================================================================ C17
 
 fn c17_scen(t: Tier) -> Vec<(&'static str, u64)> {
-    vec![("schedules", t.pick(16_000, 500_000)), ("equivalent-paths", t.pick(200_000, 4_000_000))]
+    vec![("schedules", t.pick(16_000, 500_000)), ("equivalent-paths", t.pick(200_000, 4_000_000)), ("fragment-clock", t.pick(100_000, 2_000_000))]
 }
 fn c17_gen(sc: &str, rng: &mut Rng, t: Tier, _i: u64) -> AnyCase {
+    if sc == "fragment-clock" {
+        return AnyCase::Frag(gen::gen_frag(rng, &FragKnobs { reject_pct: 5, boundary: false, big: false, long_pct: 3 }));
+    }
     if sc == "equivalent-paths" {
         let mut k = knobs_functional(t);
         k.enc_api_pct = 35;
@@ -1232,6 +1235,9 @@ fn c17_gen(sc: &str, rng: &mut Rng, t: Tier, _i: u64) -> AnyCase {
     AnyCase::Conc(crate::conc::gen(rng))
 }
 fn c17_eval(_sc: &str, case: &AnyCase, st: &mut RunStats, _t: Tier) -> Vec<Violation> {
+    if let AnyCase::Frag(c) = case {
+        return crate::conc::eval_frag_clock(c, st);
+    }
     match case {
         AnyCase::Conc(c) => match &c.pair {
             Some(what) if c.scripts.len() == 2 => crate::conc::eval_pair(&c.scripts[0], &c.scripts[1], what, st),
